@@ -77,22 +77,36 @@ func (p Ether) EtherType() uint16     { return binary.BigEndian.Uint16(p[12:14])
 
 // SrcIP i a convenience function to return the source IP address. It returns nil if no IP packet is present.
 func (p Ether) SrcIP() netip.Addr {
+	if len(p) <= p.HeaderLen() { // no payload: do not read the spare capacity
+		return netip.Addr{}
+	}
 	switch p.EtherType() {
 	case syscall.ETH_P_IP:
-		return IP4(p.Payload()).Src()
+		if ip := IP4(p.Payload()); len(ip) >= HeaderLen {
+			return ip.Src()
+		}
 	case syscall.ETH_P_IPV6:
-		return IP6(p.Payload()).Src()
+		if ip := IP6(p.Payload()); len(ip) >= IP6HeaderLen {
+			return ip.Src()
+		}
 	}
 	return netip.Addr{}
 }
 
 // DspIP i a convenience function to return the destination IP address. It returns nil if no IP packet is present.
 func (p Ether) DstIP() netip.Addr {
+	if len(p) <= p.HeaderLen() { // no payload: do not read the spare capacity
+		return netip.Addr{}
+	}
 	switch p.EtherType() {
 	case syscall.ETH_P_IP:
-		return IP4(p.Payload()).Dst()
+		if ip := IP4(p.Payload()); len(ip) >= HeaderLen {
+			return ip.Dst()
+		}
 	case syscall.ETH_P_IPV6:
-		return IP6(p.Payload()).Dst()
+		if ip := IP6(p.Payload()); len(ip) >= IP6HeaderLen {
+			return ip.Dst()
+		}
 	}
 	return netip.Addr{}
 }
